@@ -91,13 +91,15 @@ def classify(ops, lines):
         b = unhex(w[2:])
         if len(b) >= 3 and b[-1] == 0xFE and b[-3] == 0xFD: tags.add("escaped-crc")
         if b and (b[0] != 0xFE or b[-1] != 0xFE): tags.add("staging-split")
-    # flush positions relative to marks
-    prev = None
-    for i, l in enumerate(lines):
-        if l.startswith("w ") and prev is not None and prev.startswith("mark"):
-            nxt = [x for x in lines[i:] if x.startswith("mark")]
-            tags.add("flush-on-add")
-        prev = l
+    # a flush caused by an add: wire output between the previous mark and the mark of an add operation
+    pending = 0
+    for l in lines:
+        if l.startswith("w "): pending += 1
+        elif l.startswith("mark "):
+            try: i = int(l[5:])
+            except ValueError: i = -1
+            if pending and 0 <= i < len(ops) and ops[i][0] == "add": tags.add("flush-on-add")
+            pending = 0
     if len(ws) >= 2: tags.add("multi-packet")
     return tags
 
